@@ -127,13 +127,15 @@ func c19Prop(c *sim.Case) {
 			from := f.w.IdP.LedgerLen()
 			lr := b.Login("/p")
 			calls := f.w.IdP.Calls(from)
-			if len(calls) != 1 || !calls[0].HasBasic || calls[0].BasicPass != want {
-				c.Violation("token-request-with-wrong-secret", "%s: filter %d sent Basic password %q to the token endpoint, the Secret's current value is %q (login err=%q)", when, i, func() string {
-					if len(calls) > 0 {
-						return calls[0].BasicPass
-					}
-					return "<no call>"
-				}(), want, lr.Err)
+			presented := "<no call>"
+			if len(calls) > 0 {
+				presented = calls[0].BasicPass
+				if !calls[0].HasBasic {
+					presented = calls[0].FormClientSecret // client_secret_post is a way to present the secret too
+				}
+			}
+			if len(calls) != 1 || presented != want {
+				c.Violation("token-request-with-wrong-secret", "%s: filter %d presented client secret %q to the token endpoint, the Secret's current value is %q (login err=%q)", when, i, presented, want, lr.Err)
 			}
 		}
 	}
